@@ -574,11 +574,11 @@ def scale_sessions(g, tier):
     sess(g.fixed(7, 1259))
     # 3. one-byte records: IPFIX and V9 data sets with tens of thousands of records
     t1 = g.ix_msg([g.set_(2, b16(256) + b16(1) + b16(4) + b16(1))])
-    for n in ((8000, 65000) if tier == "quick" else (8000, 30000, 65000)):
+    for n in ((8000, 20000) if tier == "quick" else (8000, 30000, 65000)):
         body = [i % 251 for i in range(n)]
         sess(t1, b16(10) + b16(20 + n) + [0] * 12 + b16(256) + b16(4 + n) + body)
     v1 = g.v9_hdr(1) + g.set_(0, b16(256) + b16(1) + b16(4) + b16(1))
-    for n in (8000, 65000):
+    for n in ((8000,) if tier == "quick" else (8000, 65000)):
         body = [i % 251 for i in range(n)]
         sess(v1, g.v9_hdr(1) + b16(256) + b16(4 + n) + body)
     # 4. headers announcing 65535 records / fields / flowsets over short bodies
@@ -589,7 +589,7 @@ def scale_sessions(g, tier):
     sess(g.ix_msg([g.set_(3, b16(256) + b16(65535) + b16(65535) + b16(1) + b16(4))]))
     sess(b16(9) + b16(65535) + [0] * 16 + g.set_(1, b16(256) + b16(65535) + b16(65535) + b16(1) + b16(4)))
     # 5. templates with thousands of fields, then data
-    nf = 16000
+    nf = 4000 if tier == "quick" else 16000
     big = b16(256) + b16(nf) + [x for i in range(nf) for x in b16(1 + i % 90) + b16(1)]
     sess(g.v9_hdr(1) + g.set_(0, big[:65000]), g.v9_hdr(1) + g.set_(256, [7] * 60000))
     bigx = b16(256) + b16(nf) + [x for i in range(nf) for x in b16(1 + i % 90) + b16(1)]
@@ -602,10 +602,12 @@ def scale_sessions(g, tier):
         sess(g.v9_hdr(1) + g.set_(0, zt9), g.v9_hdr(1) + g.set_(256, [9] * 2000))
     # 7. variable-length fields with zero-length values: thousands of 1-byte records
     vt = g.ix_msg([g.set_(2, b16(256) + b16(1) + b16(94) + b16(65535))])
-    sess(vt, g.ix_msg([g.set_(256, [0] * 60000)]))
+    big_n = 15000 if tier == "quick" else 60000
+    sess(vt, g.ix_msg([g.set_(256, [0] * big_n)]))
     # 8. many small sets in one message / packet
-    sess(t1, g.ix_msg([g.set_(256, [1])] * 12000))
-    sess(v1, b16(9) + b16(12000) + [0] * 16 + g.set_(256, [1]) * 12000)
+    ns = 4000 if tier == "quick" else 12000
+    sess(t1, g.ix_msg([g.set_(256, [1])] * ns))
+    sess(v1, b16(9) + b16(ns) + [0] * 16 + g.set_(256, [1]) * ns)
     sess(b16(9) + b16(16000) + [0] * 16 + [0, 0, 0, 4] * 16000)
     ops = []
     for s in S:
